@@ -19,7 +19,7 @@
    correspondence runs (both FFIs, gcc) and not proved here. *)
 From Coq Require Import List Arith NArith ZArith Lia Bool String.
 Import ListNotations.
-From Cffi Require Import C07.Model C07.Realize C08.Gen C08.Model C08.Proofs C08.Spec C08.Proofs2 C08.Proofs3.
+From Cffi Require Import C07.Model C07.Realize C08.Gen C08.Model C08.Proofs C08.Spec C08.Proofs2 C08.Proofs3 C08.Proofs4.
 
 (* ct_name_position never points outside the name *)
 Theorem C08_position_in_range : forall T, (snd (cname T) <= List.length (fst (cname T)))%nat.
@@ -86,6 +86,27 @@ Theorem C08_get_c_name_eq_getctype : forall T x, wf_names T = true ->
   get_c_name_py (getcname T py_marker) x 0 = getctype_py T x.
 Proof. exact get_c_name_agree. Qed.
 Print Assumptions C08_get_c_name_eq_getctype.
+
+(* the length of an array type is printed IN FULL: for every 64-bit length n (in particular every
+   Py_ssize_t length < 2^63) the numeral inside the brackets of the name reads back as n; it has up to 20
+   digits, so "[n]" plus the terminating NUL needs up to 23 bytes (attained by 2^64-1) *)
+Theorem C08_array_length_rendered_in_full : forall n, (0 <= n < 2 ^ 64)%Z ->
+  dec_value (decimal n) = n /\ (List.length (decimal n) <= 20)%nat.
+Proof. exact array_length_rendered_in_full. Qed.
+Print Assumptions C08_array_length_rendered_in_full.
+
+(* ... and the buffer `char extra_text[N]` of new_array_type (N regenerated from _cffi_backend.c into Gen.v)
+   holds that text for every length *)
+Theorem C08_array_name_buffer_suffices : forall n, (0 <= n < 2 ^ 64)%Z ->
+  (array_extra_bytes n <= c_array_extra_text_size)%Z.
+Proof. exact array_name_buffer_suffices. Qed.
+Print Assumptions C08_array_name_buffer_suffices.
+
+Example C08_example_lengths :
+  fst (cname (CArr (CPrim 2) (Some 9223372036854775807%Z))) = s2l "char[9223372036854775807]" /\
+  fst (cname (CPtr (CArr (CPrim 2) (Some 10000000000000%Z)))) = s2l "char(*)[10000000000000]" /\
+  array_extra_bytes 10000000000000 = 17%Z /\ array_extra_bytes (2 ^ 64 - 1) = 23%Z.
+Proof. vm_compute. repeat split; reflexivity. Qed.
 
 (* non-vacuity *)
 Example C08_example :
